@@ -420,3 +420,14 @@ class Sim:
                 o.object_relationship_graph_to_file(filename=os.path.join(tmp, "obj2.html"), classes_to_ignore=[])
         else:
             raise AssertionError(kind)
+
+    def op_assign_slice(self, op):
+        """Upstream's idiom: obj.attr = obj.attr[a:b] (+ [other objects]) - the new list holds the *wrappers* of the
+        current list, not the raw objects."""
+        o = self.obj(op["obj"])
+        attr = op["attr"]
+        cur = getattr(o, attr)
+        new = cur[op.get("start"):op.get("stop")] + [self.obj(n) for n in op.get("plus", [])]
+        names = list(self.sattrs(op["obj"])[attr][1])[op.get("start"):op.get("stop")] + list(op.get("plus", []))
+        setattr(o, attr, new)
+        self.sattrs(op["obj"])[attr] = ["refs", names]
